@@ -51,7 +51,7 @@ PROPS = {
         suite="coinswap", modules=["CantoVerif.Props.C02"] + _CS_BRIDGE_MODULES,
         theorems=["CV.Coinswap.rejected_unchanged", "CV.Coinswap.swap_conserves", "CV.Coinswap.remove_conserves",
                   "CV.Coinswap.add_conserves", "CV.group_flow", "CV.within_conserves", "CV.Bank.applyAll_flow",
-                  "CV.deliver_rejected_unchanged", "CV.Coinswap.poolTax_ok", "CV.total_supply_inv"] + _CS_BRIDGE_CORE,
+                  "CV.deliver_rejected_unchanged", "CV.Coinswap.poolTax_ok", "CV.total_supply_inv", "CV.Coinswap.rejected_unchanged_monitor"] + _CS_BRIDGE_CORE,
         comps={"outcome", "bank", "pools"}, triggers=_CS_TRIGGERS, assumptions=_CS_ASSUME),
     "C08": dict(
         suite="coinswap", modules=["CantoVerif.Props.C08"] + _CS_BRIDGE_MODULES,
@@ -62,7 +62,7 @@ PROPS = {
         comps={"outcome", "bank", "resp"}, triggers=_CS_TRIGGERS, assumptions=_CS_ASSUME),
     "C09": dict(
         suite="coinswap", modules=["CantoVerif.Props.C09"] + _CS_BRIDGE_MODULES,
-        theorems=["CV.Coinswap.swap_caps", "CV.Coinswap.no_module_recipient", "CV.Coinswap.blocked_any_form",
+        theorems=["CV.Coinswap.swap_caps", "CV.Coinswap.no_module_recipient", "CV.Coinswap.no_module_recipient_monitor", "CV.Coinswap.blocked_any_form",
                   "CV.Coinswap.add_caps", "CV.Coinswap.pools_against_standard", "CV.Coinswap.wf_step", "CV.Coinswap.quoteLeg_fst"] + _CS_BRIDGE_CORE,
         comps={"outcome", "bank"}, triggers=_CS_TRIGGERS, assumptions=_CS_ASSUME),
 }
